@@ -399,7 +399,19 @@ def h8_encrypted(timeout=300, part=None, **kw):
     return r
 
 
+def h9_resources(timeout=100, **kw):
+    """caching on and off give the same fonts: a Font resource dictionary of three fonts, each inline or indirect, in every order, caching on/off - an inline font after an indirect one
+    must not be answered from the object-number cache (C06.H5, run here as the cache-independence clause of C12)"""
+    from harness import C06
+    r = C06.h5_resources(timeout=timeout)
+    r["harness"] = "H9_resources"
+    return r
+
+
 def replay(harness, inp):
+    if harness == "H9_resources":
+        from harness import C06
+        return C06.replay("H5_resources", inp)
     if harness == "H8_encrypted":
         from harness import C10
         return C10.replay("H7_docs", inp)
@@ -461,7 +473,7 @@ def replay(harness, inp):
 
 
 def jobs(tier):
-    J = [Job("H8_encrypted:%d" % k, "h8_encrypted", {"part": [k, 4, 4]}, 300, "H8_encrypted") for k in range(4)] + [Job("H0_inventory", "h0_inventory", {}, 60), Job("H2_usecmap", "h2_usecmap", {}, 100), Job("H3_intern", "h3_intern", {}, 150), Job("H4_getfont", "h4_getfont", {}, 200),
+    J = [Job("H8_encrypted:%d" % k, "h8_encrypted", {"part": [k, 4, 4]}, 300, "H8_encrypted") for k in range(4)] + [Job("H0_inventory", "h0_inventory", {}, 60), Job("H9_resources", "h9_resources", {}, 100), Job("H2_usecmap", "h2_usecmap", {}, 100), Job("H3_intern", "h3_intern", {}, 150), Job("H4_getfont", "h4_getfont", {}, 200),
          Job("H5_idempotent", "h5_idempotent", {}, 150), Job("H6_mapcache", "h6_mapcache", {}, 100)]
     for k in range(3):
         J.append(Job("H1_encoding:%d" % k, "h1_encoding", {"part": [k, 3, 7]}, 300, "H1_encoding"))
